@@ -99,15 +99,17 @@ Theorem C04_journal_history : forall lock hs s',
   (forall p, 1 <= p <= pageN s' -> p <> lock -> dbc s' p = file_h s' p) /\ lockpg s' = lock.
 Proof. exact journal_history_checksum. Qed.
 
-(* Non-vacuity: create 2 pages; grow to 5 writing only pages 1 and 5 (3 and 4 are gaps); shrink to 3 and truncate *)
+(* Non-vacuity: create 2 pages; grow to 5 writing only pages 1 and 5 (3 and 4 are gaps); a transaction that spills pages 2
+   and 7 and is rolled back (pre-image back, cut to 5 pages); shrink to 3 and truncate *)
 Example C04_journal_history_nonvacuous :
   let pg h := mkPg (fl h) 0 false in
-  let hs := [HTx [] [(1, pg 11); (2, pg 12)] 2;
-             HTx [(3, pg 33); (4, pg 44)] [(1, pg 21); (5, pg 55)] 5;
-             HTx [] [(2, pg 92)] 3; HTrunc 3] in
+  let hs := [HTx [] [AWrite 1 (pg 11); AWrite 2 (pg 12)] 2;
+             HTx [(3, pg 33); (4, pg 44)] [AWrite 1 (pg 21); AWrite 5 (pg 55)] 5;
+             HTx [] [AWrite 2 (pg 77); AWrite 7 (pg 70); AWrite 2 (pg 12); ACut] 5;
+             HTx [] [AWrite 2 (pg 92)] 3; HTrunc 3] in
   wf_hist (init 2097153) hs /\
   match run_hsteps (init 2097153) hs with
-  | Some s => (txid s, pageN s, lenN (dbfile s), chk s =? fl (N.lxor (N.lxor 21 92) 33)) = (3, 3, 3, true)
+  | Some s => (txid s, pageN s, lenN (dbfile s), chk s =? fl (N.lxor (N.lxor 21 92) 33)) = (4, 3, 3, true)
   | None => False
   end.
 Proof. exact journal_history_example. Qed.
